@@ -10,13 +10,14 @@ CHECKS = {
     "C07": ("XH", "CrossHair-driven enumeration (z3 choice variables for the first adjacency row / component size and matching set) with native sweeps over all dependency graphs, "
             "all non-decreasing pin assignments, all parent tag subsets; stub git repositories; oracle from the statement",
             "bounded exhaustive exploration with exhaustion certificate: (a) all dependency graphs over <= 4 repositories incl. cycles; (b) linear component of 2-4 builds x parent families "
-            "(linear 1-4, release + master) x every valid pin assignment x every tag subset",
-            "no merges in the parent history in part (b); reporting for a branch whose first shipping build belongs to a lower-sorted branch is not asserted", "DESIGN.md 3/C07"),
+            "(linear 1-4, release + master) x every valid pin assignment x every tag subset; (c) component histories with merges (fork-merge in both parent orders, side line) "
+            "x parent families x reachability-monotone pin assignments x tag subsets",
+            "no merges in the parent history; reporting for a branch whose first shipping build belongs to a lower-sorted branch is not asserted", "DESIGN.md 3/C07"),
     "C06": ("XH", "CrossHair-driven enumeration of commit-graph shapes and branch-head positions (z3 choice variables) with native sweeps over ALL placements of build tags and matching messages; "
             "stub git repository; reachability oracle from the statement; BranchName order checked symbolically for all non-negative ints",
-            "bounded exhaustive exploration with exhaustion certificate: 16 graph shapes of <= 6 commits x every release-head position x all 2^n tag subsets x all matching subsets; "
+            "bounded exhaustive exploration with exhaustion certificate: 16 graph shapes of <= 6 commits x every release-head position x all 2^n tag subsets x all matching subsets x 3 commit spacings (60 s / 2 days / 4.6 days); "
             "symbolic (unbounded ints) total-order check of branch names",
-            "git repository stubbed in memory; commit times inside the window by construction", "DESIGN.md 3/C06"),
+            "git repository stubbed in memory; commit times strictly increasing along history", "DESIGN.md 3/C06"),
     "C10": ("XH", "CrossHair-driven enumeration of rendering histories (z3 choice variables for the first step, native sweep of the rest) over long-lived printable objects, with id() as seen by ak.ppobj "
             "replaced by an adversarial environment stub constrained by CPython's contract; compared with fresh objects / no_color twins through an independent SGR stripper",
             "bounded exhaustive exploration: histories of <= 2 steps exhaustively (<= 3-4 partially) over 5 object kinds x 3 configurations x no_color x explicit/global route; "
@@ -25,7 +26,7 @@ CHECKS = {
     "C18": ("XH", "CrossHair-driven enumeration (z3 choice variables: column permutation, leading blank rows, table offset, end rule, ladder, missing optional column) with native sweeps over row contents; "
             "stub worksheet; oracle = converter applied at the reported origin + independent reference locator + filled-in twin for ladder sheets",
             "bounded exhaustive exploration with exhaustion certificate over 6 rule sets (plain, optional, external, ranged dict/set, two classes per row), <= 5-6 columns in sampled-permutation order, "
-            "<= 3 data rows, table offsets 0/1/23 columns", "structural property: the solver enumerates; worksheet stubbed by a cell grid", "DESIGN.md 3/C18"),
+            "explicit layouts with untitled/unknown columns next to the ranged group, <= 3 data rows, table offsets 0/1/23 columns, ladder blanks None or whitespace", "structural property: the solver enumerates; worksheet stubbed by a cell grid", "DESIGN.md 3/C18"),
     "C11": ("XH", "CrossHair-driven enumeration (z3 choice variables for container skeleton / nesting offset) with native sweeps over every string length around the wrapping thresholds; "
             "json.loads / ast.literal_eval read-back",
             "bounded exhaustive exploration with exhaustion certificate: 10 container skeletons x nesting offsets 0/2/4 x every length 0..215 of the varying element, threshold-adjacent length pairs, "
@@ -38,21 +39,21 @@ CHECKS = {
     "C04": ("XH", "CrossHair symbolic execution of the real tokenizer/parser/get_orig_text with the regex engine stubbed (symbolic match ends and token kinds, symbolic line strings); "
             "solver-enumerated concrete texts through the real regex as second front end and as replay",
             "bounded model checking: all line lengths, token boundaries, blank lines, skipped text and span closings within <= 3 lines / <= 3-5 matcher calls (symbolic), "
-            "plus every concrete text of <= 7 symbols over a 6-symbol alphabet through the real `re` tokenizer (str and list-of-lines input)",
+            "plus every concrete text of <= 6 (quick) / 7 (thorough) symbols over an 8-symbol alphabet through the real `re` tokenizer (str and list-of-lines input)",
             "regex engine is an environment stub in the symbolic part (contract: match starts at the requested column, non-empty); stub spaces may not exhaust in quick (reported)",
             "DESIGN.md 3/C04"),
     "C01": ("XH", "CrossHair-driven exhaustive enumeration (z3 choice variables) of grammar-family holes; real parser on ALL token strings up to the length bound, independent derivation checker",
-            "bounded exhaustive exploration with exhaustion certificate: every instantiation of 17 shape families x both smart_factorization settings x all token strings of length <= 4 (quick) / 6 (thorough)",
+            "bounded exhaustive exploration with exhaustion certificate: every instantiation of 22 shape families (alternatives as written and reversed) x both smart_factorization settings x all token strings of length <= 4 (quick) / 6 (thorough)",
             "structural property: the solver enumerates; step budget per parse; real tokenizer with synonym and keyword terminals", "DESIGN.md 3/C01"),
     "C02": ("XH", "as C01, with independent FIRST/FOLLOW/predict and fixpoint recogniser as oracles",
             "bounded exhaustive exploration: for every family grammar that is LL(1) as written or whose table the parser reports conflict-free, acceptance == sentence-hood for all strings up to the bound, "
-            "unique valid tree, identical for both smart settings", "as C01; oracles independent of the implementation", "DESIGN.md 3/C02"),
+            "unique valid tree, identical for both smart settings, is_ambiguous() unchanged by parsing", "as C01; oracles independent of the implementation", "DESIGN.md 3/C02"),
     "C03": ("XH", "as C01 plus z3-chosen symbol-name permutations; cycle oracle over the nullable-prefix graph; step-budgeted real parse loop",
             "bounded exhaustive exploration: GrammarIsRecursive <=> cycle, for every family grammar under 7 name assignments (all alphabetical orders of start/nullable/recursive symbols); accepted grammars terminate on all strings up to the bound",
             "non-termination is observed as exceeding 20000 parser steps on inputs of <= 5 tokens", "DESIGN.md 3/C03"),
     "C14": ("XH", "CrossHair-driven exhaustive enumeration (z3 choice variables) of description sets x splits over explicit config / components x registration orders; "
             "real ColorsConfig/Palette code vs an order-free reference resolver",
-            "bounded exhaustive exploration with exhaustion certificate over 3 ids (incl. dotted, built-in parent, unknown parent), all 6 registration orders, explicit-wins and no_color twins; "
+            "bounded exhaustive exploration with exhaustion certificate over 3 ids (incl. dotted, built-in parent, unknown parent, color 0), all 6 registration orders, explicit-wins and no_color twins; "
             "observed through get_color, palettes obtained before/after registrations and the synced global palette",
             "structural property: the solver enumerates; formatters compared through emitted text",
             "DESIGN.md 3/C14"),
@@ -81,7 +82,7 @@ CHECKS = {
             "DESIGN.md 3/C12"),
     "C13": ("XH", "CrossHair-driven exhaustive enumeration (z3 choice variables) of column descriptions x limits x record sets x life stages; real PPTable code executed per case",
             "bounded exhaustive exploration with exhaustion certificate: every 1-column description within the width bound and 2-3 column combinations of representative descriptors, "
-            "at every life stage; the reported fmt string is fed to the setter and the constructor and all renderings compared",
+            "at every life stage (incl. limits changed after printing and read back before the next printing); the reported fmt string is fed to the setter and the constructor and all renderings compared",
             "structural property: the solver enumerates (widths are rendered into the format string, so they cannot stay symbolic); bounded sizes",
             "DESIGN.md 3/C13"),
     "C09": ("P2S+RX+XH", "AST->z3 execution of the real sequence builder (symbolic color ints/bools), reference SGR interpreter forking on the same solver, "
@@ -92,7 +93,7 @@ CHECKS = {
             "reference SGR interpreter is the terminal model; str(n) over-approximated by canonical decimals in regex queries (sound for inclusion); re.sub completeness assumed",
             "DESIGN.md 3/C09"),
     "C19": ("XH", "CrossHair-driven exhaustive enumeration (z3 choice variables) of all parent declarations over N commands; real argparse-based code executed per graph",
-            "bounded exhaustive exploration with an exhaustion certificate: every acyclic parent declaration over N<=4 (quick) / N<=5 (thorough) commands, every option/command pair checked against the transitive-closure oracle",
+            "bounded exhaustive exploration with an exhaustion certificate: every acyclic parent declaration over N<=4 (quick) / N<=5 (thorough) commands, every graph under 7 name assignments (the set of parent names is iterated in hash order), every option/command pair checked against the transitive-closure oracle",
             "structural property: the solver only enumerates; argparse (stdlib) trusted; stderr captured",
             "DESIGN.md 3/C19"),
     "C08": ("XH", "CrossHair symbolic execution of the real CHText code vs a list-of-(char,color) reference model; z3 per path, spaces exhausted",
@@ -102,7 +103,7 @@ CHECKS = {
             "DESIGN.md 3/C08"),
     "C20": ("P2S+XH", "AST->z3 symbolic execution of the real kernels (mathematical ints), unsat per path; CrossHair for the str front end",
             "bounded model checking with an explicit bound: all 2**128 uuid values and all 22-character strings over all code points are covered "
-            "by z3 (unsat on every path of the real source translated at run time); other lengths up to the stated bound; counterexamples replayed on the real functions",
+            "by z3 (unsat on every path of the real source translated at run time); other lengths up to the stated bound; strings around the 2**128 boundary through the real uuid.UUID; counterexamples replayed on the real functions",
             "z3 Int == Python int; uuid.UUID stubbed by its documented contract (validated concretely each run); translator validated on the repo's test vector and boundary values each run",
             "DESIGN.md 3/C20"),
 }
